@@ -1241,9 +1241,13 @@ def find_commit_bitmaps(
         if not remaining:
             break
 
-        pack_bitmap = pack.bitmap
+        try:
+            pack_bitmap = pack.bitmap
+        except FileNotFoundError:
+            # No .bitmap file for this pack
+            continue
         if not pack_bitmap:
-            # No bitmap for this pack
+            # No usable bitmap for this pack
             continue
 
         # Build SHA to position mapping for this pack
